@@ -42,8 +42,11 @@ from pgradd.GroupAdd.Library import GroupLibrary
 import pgradd.ThermoChem
 import pgradd.GroupAdd.DataDir as DD
 out = {}
-for name, arg in json.loads(sys.argv[1]):
+for item in json.loads(sys.argv[1]):
+    name, arg = item[0], item[1]
     try:
+        if len(item) > 2:
+            os.chdir(item[2])
         lib = GroupLibrary.Load(arg)
         out[name] = dict(fp=shipped.fingerprint(lib), path=os.path.realpath(lib.path))
     except BaseException as e:
@@ -89,6 +92,15 @@ def locations():
         _loc['relocated-relative'] = run_worker([[L, L] for L in shipped.LIBS],
                                                 {'pgradd_DATA_DIR': os.path.join('elsewhere', 'data copy')}, cwd=tmp)
         _loc['relocated-relative']['__expected_dir__'] = os.path.realpath(dst)
+        # each library's directory ALONE somewhere else (a library is the directory that carries its name), by explicit path
+        alone = os.path.join(tmp, 'alone')
+        for L in shipped.LIBS:
+            shutil.copytree(os.path.join(data, L), os.path.join(alone, L + '-only', L))
+        _loc['alone-by-path'] = run_worker([[L, os.path.join(alone, L + '-only', L, 'library.yaml')] for L in shipped.LIBS], cwd=HERE)
+        _loc['alone-by-path']['__expected_dir__'] = os.path.realpath(alone)
+        # all of them in one process through the SAME relative path string, each from inside its own directory
+        _loc['relative-path-from-its-directory'] = run_worker([[L, 'library.yaml', os.path.join(dst, L)] for L in shipped.LIBS], cwd=HERE)
+        _loc['relative-path-from-its-directory']['__expected_dir__'] = os.path.realpath(dst)
         # a copy with an EDITED scheme, loaded by explicit path and no override: the scheme next to the file must be used
         marker = "\n- center_name: VerifMarker\n  periph_name: VerifMarker\n  connectivity: 'fragment a{Au labeled c1}'\n"
         for L in shipped.LIBS:
@@ -105,7 +117,7 @@ def locations():
 
 def enum_cases(tier):
     for L in shipped.LIBS:
-        for way in ('by-path', 'relocated-absolute', 'relocated-relative', 'edited-copy-by-path'):
+        for way in ('by-path', 'relocated-absolute', 'relocated-relative', 'alone-by-path', 'relative-path-from-its-directory', 'edited-copy-by-path'):
             yield dict(kind='location', lib=L, way=way)
         for k in shipped.group_names(L):
             yield dict(kind='group', lib=L, group=k)
@@ -176,6 +188,9 @@ def check_location(ctx, case):
     d = diff_fp(ref['fp'], got['fp'])
     if d:
         ctx.fail('contents-differ:%s' % way, '%s loaded %s differs from loading by name: %s' % (L, way, d))
+    if way in ('alone-by-path', 'relative-path-from-its-directory'):
+        if not got['path'].startswith(loc[way]['__expected_dir__'] + os.sep) or os.path.basename(os.path.dirname(got['path'])) != L:
+            ctx.fail('wrong-file-loaded:%s' % way, '%s: loaded %s' % (L, got['path']))
     if way.startswith('relocated'):
         want = loc[way]['__expected_dir__']
         if not got['path'].startswith(want + os.sep):
